@@ -192,20 +192,26 @@ def a_saveFullRemoveExtended(T): return _save_full_target(T, 'os.remove')
 def a_deleteRemoveExtended(T): return _b(_arg_of(_hv(T, 'delete_ds'), 'os.remove', 'self.data_name'))
 
 
-def _merge_kind(v, old, new):
+def _merge_kind(v, old, new, alias=None):
+    alias = alias or {}
+
+    def un(e):
+        t = ast.unparse(e)
+        return alias.get(t, t)
     if isinstance(v, ast.Call) and isinstance(v.func, ast.Attribute):
-        recv = ast.unparse(v.func.value)
+        recv = un(v.func.value)
         if v.func.attr == 'combine_first' and len(v.args) == 1 and not v.keywords:
-            arg = ast.unparse(v.args[0])
+            arg = un(v.args[0])
             if (recv, arg) == (new, old): return 'MergeKind.newFirst'
             if (recv, arg) == (old, new): return 'MergeKind.oldFirst'
-        if v.func.attr == 'merge' and recv == old and len(v.args) == 1 and ast.unparse(v.args[0]) == new:
+        if v.func.attr == 'merge' and recv == old and len(v.args) == 1 and un(v.args[0]) == new:
             kw = {k.arg: ast.unparse(k.value) for k in v.keywords}
             if kw in ({'compat': "'no_conflicts'"}, {}): return 'MergeKind.noConflicts'
         if v.func.attr == 'merge' and recv == 'xr' and len(v.args) == 1 and ast.unparse(v.args[0]) in (f'[{old}, {new}]', f'({old}, {new})'):
             kw = {k.arg: ast.unparse(k.value) for k in v.keywords}
             if kw in ({'compat': "'no_conflicts'"}, {}): return 'MergeKind.noConflicts'
-    return 'MergeKind.unknown'
+    # an expression this extractor does not understand says nothing about the code: fall back (the correspondence judges)
+    raise NotFound('merge expression not recognised: ' + ast.unparse(v)[:80])
 
 
 def _dispatch(func, target, old, new, which):
@@ -218,7 +224,13 @@ def _dispatch(func, target, old, new, which):
     body = {'true': i.body, 'false': j.body, 'none': j.orelse}[which]
     if len(body) != 1 or not isinstance(body[0], ast.Assign) or ast.unparse(body[0].targets[0]) != target:
         raise NotFound(f'branch {which}: not a single assignment to {target}')
-    return _merge_kind(body[0].value, old, new)
+    # local names that merely stand for `old` / `new` (assigned once, e.g. `old_full_ds = self._full_ds`)
+    alias = {}
+    for n in ast.walk(func):
+        if isinstance(n, ast.Assign) and len(n.targets) == 1 and isinstance(n.targets[0], ast.Name) and ast.unparse(n.value) in (old, new):
+            if len(assigns(func, n.targets[0].id)) == 1:
+                alias[n.targets[0].id] = ast.unparse(n.value)
+    return _merge_kind(body[0].value, old, new, alias)
 
 
 def _add(which): return lambda T: _dispatch(_hv(T, 'add_ds'), 'new_full_ds', 'self._full_ds', 'new_ds', which)
